@@ -13,6 +13,8 @@ Inductive case :=
 | CPop (w : nat) (obs : res Circuit)
 (* large widths: graph equality with the model only (the theorems then speak about that very graph) *)
 | CBigAdder (w : nat) (ci co : bool) (C : Circuit) | CBigMux (w : nat) (C : Circuit) | CBigPop (w : nat) (C : Circuit)
+(* widths with two-digit indices: graph equality + the specification on a subset of the input vectors (Proofs/LogicOracle.v, *_sweep) *)
+| CAdderSweep (w : nat) (ci co : bool) (C : Circuit) | CMuxSweep (w : nat) (C : Circuit) | CPopSweep (w : nat) (C : Circuit)
 (* Python-side simulation of a large block on random vectors: additional support, not a proof *)
 | CSim (fn : string) (w vectors : nat) (ok : bool).
 
@@ -24,11 +26,11 @@ Definition agree (k : case) : bool :=
   | CB2I b lend obs => bool_decide (bin_to_int b lend = obs)
   | CHalf C => bool_decide (half_adder = C)
   | CFull C => bool_decide (full_adder = C)
-  | CAdder w ci co C | CBigAdder w ci co C => bool_decide (adder w ci co = C)
+  | CAdder w ci co C | CBigAdder w ci co C | CAdderSweep w ci co C => bool_decide (adder w ci co = C)
   | CMux w obs => bool_decide (mux w = obs)
   | CPop w obs => bool_decide (popcount w = obs)
-  | CBigMux w C => bool_decide (mux w = Ok C)
-  | CBigPop w C => bool_decide (popcount w = Ok C)
+  | CBigMux w C | CMuxSweep w C => bool_decide (mux w = Ok C)
+  | CBigPop w C | CPopSweep w C => bool_decide (popcount w = Ok C)
   | CSim _ _ _ _ => true
   end.
 
@@ -63,5 +65,9 @@ Definition holds (k : case) : bool :=
       | S _, Ok C => popcount_ok w (c_g C) && clean C
       | _, _ => false end
   | CBigAdder _ _ _ _ | CBigMux _ _ | CBigPop _ _ => true
+  (* lint at these sizes is quadratic: only for the (small) mux; for adder/popcount it is theorem + graph equality *)
+  | CAdderSweep w ci co C => adder_sweep_ok w ci co (c_g C) && bool_decide (c_bbs C = ∅)
+  | CMuxSweep w C => mux_sweep_ok w (c_g C) && clean C
+  | CPopSweep w C => popcount_sweep_ok w (c_g C) && bool_decide (c_bbs C = ∅)
   | CSim _ _ _ ok => ok
   end.
